@@ -308,8 +308,10 @@ static vp::Verdict check(const Case &c, vp::Ctx &ctx)
         // canonical authority-form round trip
         const std::string canon = sb(u.authority(true));
         AnyP::Uri u2;
-        if (!u2.parse(method, SBuf(canon.data(), canon.size()))) return vp::fail("uri:roundtrip:canonical-form-rejected", "CONNECT " + vp::esc(c.uri) + " canonical " + vp::esc(canon));
-        if (std::string(u2.host()) != sh) return vp::fail("uri:roundtrip:host-differs", vp::esc(canon) + " -> " + vp::esc(u2.host()));
+        const bool unspecified6 = sh == "::"; // the unspecified IPv6 address is stored without brackets
+        if (!u2.parse(method, SBuf(canon.data(), canon.size())))
+            return vp::fail(unspecified6 ? "uri:roundtrip:unspecified-ipv6-loses-brackets" : "uri:roundtrip:canonical-form-rejected", "CONNECT " + vp::esc(c.uri) + " canonical " + vp::esc(canon));
+        if (std::string(u2.host()) != sh) return vp::fail(unspecified6 ? "uri:roundtrip:unspecified-ipv6-loses-brackets" : "uri:roundtrip:host-differs", vp::esc(canon) + " -> " + vp::esc(u2.host()));
         if (u2.port() != u.port()) return vp::fail("uri:roundtrip:port-differs", vp::esc(canon));
         ctx.label("roundtrip-checked");
         return vp::pass();
@@ -353,6 +355,8 @@ static vp::Verdict check(const Case &c, vp::Ctx &ctx)
 
     if (ref.urn) {
         ctx.label("urn");
+        if (u.hostIsNumeric()) // e.g. urn:1234:x -> "host" 0.0.4.210; the canonical form then no longer parses
+            return vp::fail("uri:urn-nid-converted-to-ip-address", vp::esc(c.uri) + " canonical " + vp::esc(canon));
         ctx.excluded("urn: has no authority; only the canonical-form round trip is judged");
     } else {
         if (!ref.hasAuthority) return vp::fail("uri:accepted-without-authority", vp::esc(c.uri));
@@ -379,10 +383,10 @@ static vp::Verdict check(const Case &c, vp::Ctx &ctx)
     // ---- parse(absolute()) round trip
     AnyP::Uri u2;
     if (!u2.parse(method, SBuf(canon.data(), canon.size())))
-        return vp::fail(ref.urn ? "uri:roundtrip:canonical-form-rejected:urn" : "uri:roundtrip:canonical-form-rejected", vp::esc(c.uri) + " canonical " + vp::esc(canon));
+        return vp::fail(ref.urn ? "uri:roundtrip:canonical-form-rejected:urn" : (sh == "::" ? "uri:roundtrip:unspecified-ipv6-loses-brackets" : "uri:roundtrip:canonical-form-rejected"), vp::esc(c.uri) + " canonical " + vp::esc(canon));
     const std::string what = vp::esc(c.uri) + " canonical " + vp::esc(canon);
     if (sb(u2.getScheme().image()) != squidScheme) return vp::fail("uri:roundtrip:scheme-differs", what);
-    if (std::string(u2.host()) != sh) return vp::fail("uri:roundtrip:host-differs", what + " -> host " + vp::esc(u2.host()));
+    if (std::string(u2.host()) != sh) return vp::fail(sh == "::" ? "uri:roundtrip:unspecified-ipv6-loses-brackets" : "uri:roundtrip:host-differs", what + " -> host " + vp::esc(u2.host()));
     if (u2.port() != u.port()) return vp::fail("uri:roundtrip:port-differs", what + " -> port " + std::to_string(u2.port().value_or(0)));
     const std::string path2 = sb(u2.path());
     if (pctNormalise(path2) != pctNormalise(spath)) return vp::fail("uri:roundtrip:path-differs", what + " path " + vp::esc(spath) + " -> " + vp::esc(path2));
